@@ -247,10 +247,15 @@ ClockSkew(d) ==
 
 (* is the message in flight, in the receiver's present configuration, something a
    receiver must refuse?  (what the property states, NOT how the automaton decides) *)
-AuthFaults == SignedRegions \cup UnsignedRegions \cup {"move"}
+(* Section 5.3.1: from the second signed envelope of a stream on, only the timers of the
+   TSIG RR are digested; its other data and TTL are then not covered by the MAC (owner,
+   algorithm, class and error are still checked against the key / fixed values). *)
+RFirst == raccepted = 0 \/ ~Multi
+AuthFaults(first) == (SignedRegions \cup UnsignedRegions \cup {"move"})
+                        \ (IF first THEN {} ELSE {"tsig.other", "tsig.ttl"})
 MustRefuse ==
     \/ taint
-    \/ mf \cap AuthFaults # {}
+    \/ mf \cap AuthFaults(RFirst) # {}
     \/ cf # {}
     \/ Abs(skew) > fudge
     \/ serror # 0
